@@ -485,6 +485,8 @@ def dispatch (cls : Classes) (m : Mode) (ch : Char) (st : St) (h : Holders) : St
   else if ch = '-' ∧ peek st = some '-' then .comment (scanLineComment (next st).2)
   else if ch = '\'' ∨ (!m.ansiQuotes ∧ ch = '"') then stepString ch st h line col
   else if ch = '`' ∨ (m.ansiQuotes ∧ ch = '"') then stepQuotedIdent ch st h line col
+  -- `else if unicode.MaxASCII < ch { token = Uncategorized }`: only an ASCII character stands for itself
+  else if 127 < ch.toNat then .tok { kind := .uncategorized, lit := [ch], line := line, col := col } none st h
   else .tok { kind := .rune ch, lit := [ch], line := line, col := col } none st h
 
 /-- `Scan()`: skip white space, read one rune, dispatch -/
